@@ -22,6 +22,8 @@ from vf.world import World
 IDX = st.integers(0, 31)
 VT = st.sampled_from([None, None, None, None, "i64", "u64", "u32", "i32", "u16", "u8"])
 SK = st.integers(0, 7)
+# ngram sizes: ordinary ones, and sizes that do not fit 32 bits (every key is then shorter than the ngram and is added whole)
+NGRAM_SIZES = st.one_of(st.integers(1, 9), st.integers(1, 9), st.integers(1, 9), st.integers(1, 9), st.sampled_from([2**32, 2**32 + 1, 2**32 + 2, 2**40 + 3, 2**63, 2**64 - 1]))
 
 
 class HistoryMachine(RuleBasedStateMachine):
@@ -126,12 +128,12 @@ class HistoryMachine(RuleBasedStateMachine):
         self.do({"op": "update_dict", "i": i % self.N, "items": items, **({"vt": vt} if vt else {}), **({"as": how} if how != "dict" else {}), **self._draws(data)})
 
     @precondition(lambda self: self.NGRAM)
-    @rule(i=SK, ki=IDX, n=st.integers(1, 9), data=st.data())
+    @rule(i=SK, ki=IDX, n=NGRAM_SIZES, data=st.data())
     def add_ngram(self, i, ki, n, data):
         self.do({"op": "add_ngram", "i": i % self.N, "k": self.key(ki), "n": n, **self._draws(data)})
 
     @precondition(lambda self: self.NGRAM)
-    @rule(i=SK, kis=st.lists(IDX, min_size=0, max_size=3), n=st.integers(1, 9), how=st.sampled_from(["list", "list", "iter"]), data=st.data())
+    @rule(i=SK, kis=st.lists(IDX, min_size=0, max_size=3), n=NGRAM_SIZES, how=st.sampled_from(["list", "list", "iter"]), data=st.data())
     def update_ngram(self, i, kis, n, how, data):
         self.do({"op": "update_ngram", "i": i % self.N, "keys": [self.key(k) for k in kis], "n": n, **({"as": how} if how != "list" else {}), **self._draws(data)})
 
